@@ -31,8 +31,13 @@ def seeded_block():
         j = json.load(open(m))
         sid = os.path.basename(os.path.dirname(m))
         ran = j.get('ran', {})
-        keys = ran.get('verif_violation_keys', [])
-        status = j.get('status') or ('detected' if j.get('detected_by_check') else 'MISSED')
+        at = j.get('at_head')
+        if at:      # re-run against the final /repo HEAD by tools/reverify_seeds.sh
+            keys = at.get('violation_keys', [])
+            status = f"{at.get('result')} (at {at.get('repo_commit')})"
+        else:
+            keys = ran.get('verif_violation_keys', [])
+            status = j.get('status') or ('detected' if j.get('detected_by_check') else 'MISSED')
         rows.append(f"| {sid} | {esc(j.get('summary') or j.get('needs_to_manifest', ''))[:230]} | {status} | {esc('; '.join(keys[:2]))[:150]} |")
     out = ['| seeded change | what it is / what it needs to manifest | result of the quick check | first finding keys |', '|---|---|---|---|'] + rows
     return '\n'.join(out)
